@@ -73,6 +73,22 @@ fn main() {
                 }
             }
         }
+        "probe-deep" => {
+            // internal: dsverif probe-deep <kind> - known finding C07/stack-overflow-on-very-deep-nesting, run on this
+            // process' main thread (default stack) so that the overflow kills only this child
+            let kind: usize = args.get(2).and_then(|a| a.parse().ok()).unwrap_or(0);
+            let text = if kind == 0 {
+                let n = 70000;
+                format!("r = not {}true{}\n", "( ".repeat(n), " )".repeat(n))
+            } else {
+                "h = array leaf\ni = range 0 30000\nfor k in ${i}\n    h = array ${h}\nend\nx = release -r ${h}\n".to_string()
+            };
+            let mut ctx = duckscript::types::runtime::Context::new();
+            duckscriptsdk::load(&mut ctx.commands).expect("sdk load");
+            let r = duckscript::runner::run_script(&text, ctx, None);
+            println!("returned {}", if r.is_ok() { "Ok" } else { "Err" });
+            0
+        }
         "probe-cycle" => {
             // internal: dsverif probe-cycle <dir> <len> <style>
             if args.len() < 5 {
